@@ -286,6 +286,12 @@ func vfRunLimits(c vtrace.Case, rec *vtrace.Rec) {
 			}
 		}
 	case "conn":
+		// the connection limit can only be reached if the stream limits leave room for it (a fingerprint with a
+		// suppressed stream-count parameter may not): otherwise nothing is planned against it
+		if capacity := adv["streams_uni"].(int)*adv["stream_uni"].(int) + adv["streams_bidi"].(int)*adv["stream_bidi_remote"].(int); capacity < advN {
+			r.add(vtrace.Op{"ev": "Plan", "kind": kind, "n": 0})
+			break
+		}
 		r.add(vtrace.Op{"ev": "Plan", "kind": kind, "n": advN})
 		total := 0
 		for i := 0; total < advN; i++ {
